@@ -84,11 +84,74 @@ func (c *ctx) workerFacts() {
 				return false
 			})
 		}
+		calls = expandWorkerCalls(calls, &allReturned, 0)
 		c.site("worker_"+fn, len(calls) > 0)
 		fmt.Fprintf(&c.lean, "/-- `%s` worker: the calls that can fail, in source order -/\ndef worker%sCalls : List String := [%s]\n", fn, fn, quoteList(calls))
 		fmt.Fprintf(&c.lean, "/-- every one of them is directly followed by `if err != nil { return err }` -/\ndef worker%sReturnsEveryError : Bool := %v\n", fn, allReturned && len(calls) > 0)
 		c.facts["worker"+fn+"Calls"] = calls
 	}
+}
+
+// expandWorkerCall: a call to a local helper whose body is again a sequence of "call, return its error" steps is
+// replaced by those steps (what `ChopFile`'s worker does with one job may live in a helper of its own)
+func expandWorkerCalls(calls []string, all *bool, depth int) []string {
+	var out []string
+	for _, name := range calls {
+		fds := localFuncs[name]
+		if depth >= 2 || len(fds) != 1 || name == "readChunkFromFile" {
+			out = append(out, name)
+			continue
+		}
+		var inner []string
+		ok := true
+		blk := fds[0].Body
+		for i, st := range blk.List {
+			switch t := st.(type) {
+			case *ast.AssignStmt:
+				if len(t.Rhs) != 1 {
+					continue
+				}
+				call, isCall := t.Rhs[0].(*ast.CallExpr)
+				errAssigned := false
+				for _, l := range t.Lhs {
+					if exprString(l) == "err" {
+						errAssigned = true
+					}
+				}
+				if !isCall || !errAssigned {
+					continue
+				}
+				inner = append(inner, shortCall(call))
+				next := false
+				if i+1 < len(blk.List) {
+					if ifs, isIf := blk.List[i+1].(*ast.IfStmt); isIf && exprString(ifs.Cond) == "err!=nil" && returnsErr(ifs.Body) {
+						next = true
+					}
+				}
+				ok = ok && next
+			case *ast.IfStmt:
+				if as, isAs := t.Init.(*ast.AssignStmt); isAs && len(as.Rhs) == 1 && exprString(t.Cond) == "err!=nil" {
+					if call, isCall := as.Rhs[0].(*ast.CallExpr); isCall {
+						inner = append(inner, shortCall(call))
+						ok = ok && returnsErr(t.Body)
+					}
+				}
+			case *ast.ReturnStmt: // `return s.StoreChunk(chunk)`: the error goes straight to the caller
+				if len(t.Results) == 1 {
+					if call, isCall := t.Results[0].(*ast.CallExpr); isCall {
+						inner = append(inner, shortCall(call))
+					}
+				}
+			}
+		}
+		if len(inner) == 0 {
+			out = append(out, name)
+			continue
+		}
+		*all = *all && ok
+		out = append(out, expandWorkerCalls(inner, all, depth+1)...)
+	}
+	return out
 }
 
 func shortCall(call *ast.CallExpr) string {
